@@ -456,6 +456,12 @@ class World(object):
         for mod in (F, O, PEPit):
             if hasattr(mod, name):
                 return getattr(mod, name)
+        if name.startswith("User"):
+            from sim import userclasses
+            reg = self.__dict__.setdefault("_userclasses", None) or userclasses.build()
+            self._userclasses = reg
+            if name in reg:
+                return reg[name]
         raise HarnessError("unknown class %s" % name)
 
     def op_func(self, op):
@@ -657,8 +663,13 @@ class World(object):
 
     def op_plin(self, op):
         from PEPit import null_point
-        p = self._lin_acc(op["terms"], null_point) if op.get("acc") else \
-            self._lin(op["terms"], null_point, op.get("style"))
+        if op.get("acc_from_first") and op["terms"] and op["terms"][0][1] == 1 and len(op["terms"]) > 1:
+            p = self.get(op["terms"][0][0])      # `y = x; y += ...` on points
+            for hname, w in op["terms"][1:]:
+                p += w * self.get(hname)
+        else:
+            p = self._lin_acc(op["terms"], null_point) if op.get("acc") else \
+                self._lin(op["terms"], null_point, op.get("style"))
         den = {}
         for hname, w in op["terms"]:
             for k, v in self.den[hname].items():
@@ -703,6 +714,16 @@ class World(object):
         styles = op.get("style")
         for j, (hname, w) in enumerate(op.get("terms") or []):
             t = self.get(hname)
+            if op.get("acc_from_first") and j == 0 and w == 1:
+                acc = t          # `phi = d0; phi += ...`: the running sum starts as another name of an existing object
+                for k, v in self.den[hname].items():
+                    den[k] = den.get(k, 0.0) + v
+                continue
+            if op.get("acc_from_first") and j > 0:
+                acc += w * t
+                for k, v in self.den[hname].items():
+                    den[k] = den.get(k, 0.0) + w * v
+                continue
             if op.get("acc"):
                 acc += w * t
             elif styles:
